@@ -60,9 +60,17 @@ def cases(draw, tier):
                                 history=True, types=False, shape=shape,
                                 poke=True))
     md = draw(st.sampled_from(["none", "none", "taxonomy", "naive"]))
+    big = draw(st.sampled_from([False] * 29 + [True]))
+    if big:
+        # one axis past 256 entries (block-wise writers/readers)
+        spec = draw(gen.big_specs(md="none", values="dyadic"))
+        md = draw(st.sampled_from(["none", "taxonomy"]))
     n = len(spec["obs"])
     colname = None
-    if md == "taxonomy":
+    if md == "taxonomy" and big:
+        spec["obs_md"] = [{"tax": ["k__%d" % (i % 7), "s__%d" % i],
+                           "other": "zz"} for i in range(n)]
+    elif md == "taxonomy":
         spec["obs_md"] = [{"tax": draw(st.lists(TAX_ELEM, min_size=1,
                                                 max_size=4)),
                            "other": "zz"} for _ in range(n)]
@@ -81,6 +89,9 @@ def cases(draw, tier):
         spec["history"] = [o for o in spec["history"]
                            if o["op"] not in ("transpose",)]
     return {"table": spec, "md": md, "colname": colname,
+            # the label of the ID column (API exports only)
+            "obs_col": draw(st.sampled_from(["#OTU ID", "#OTU ID", "Taxon",
+                                             "#Gene", "Feature ID"])),
             "export": draw(st.sampled_from(["to_tsv", "str", "direct_io",
                                             "convert"])),
             "import": draw(st.sampled_from(["lines", "stringio", "path",
@@ -112,6 +123,8 @@ def export(t, case, d):
         kw = {"header_key": "tax", "header_value": col,
               "metadata_formatter": _join if md == "taxonomy" else
               (lambda x: x)}
+    if case.get("obs_col", "#OTU ID") != "#OTU ID" and how != "str":
+        kw["observation_column_name"] = case["obs_col"]
     if how == "to_tsv":
         return t.to_tsv(**kw)
     if how == "str":
